@@ -96,3 +96,9 @@ Definition suffix_send : bytes := [46;115;101;110;100].       (* ".send" *)
 Definition duplex_input (g : gconf) (start_id : N) (stream : list (sframe * bytes)) : list bytes :=
   map snd (filter (fun p => (start_id <? sf_id (fst p)) && (sf_ctx (fst p) =? g_ctx g)
                             && bytes_eqb (sf_topic (fst p)) (g_name g ++ suffix_send)) stream).
+
+(* consecutive instances of one duplex generator: the instance started by the frame `start_id`
+   subscribes after that frame (last_id = its own .start) and lives until its .stop `stop_id`:
+   it is fed the sends appended in between - not those consumed by earlier instances *)
+Definition instance_input (g : gconf) (start_id stop_id : N) (stream : list (sframe * bytes)) : list bytes :=
+  duplex_input g start_id (filter (fun p => sf_id (fst p) <? stop_id) stream).
